@@ -126,6 +126,9 @@ struct Spec {
     profile: bool,
     benches: Vec<BenchSpec>,
     groups: Vec<GroupSpec>,
+    /// Bytes format set by `--bytes-format`, by `DIVAN_BYTES_FORMAT`, by the builder before
+    /// `config_with_args()` and by the builder after it: `Some(true)` = binary.
+    fmt: [Option<bool>; 4],
     /// `--threads`
     cli_threads: Option<Vec<usize>>,
     /// `--exact`?
@@ -138,6 +141,14 @@ struct Toks<'a> {
     t: Vec<&'a str>,
     i: usize,
 }
+impl Spec {
+    /// The format that should be in force: builder after parsing > flag > environment >
+    /// builder before parsing > decimal.
+    fn binary(&self) -> bool {
+        self.fmt[3].or(self.fmt[0]).or(self.fmt[1]).or(self.fmt[2]).unwrap_or(false)
+    }
+}
+
 impl<'a> Toks<'a> {
     fn next(&mut self) -> &'a str {
         let x = self.t[self.i];
@@ -227,6 +238,14 @@ fn parse_case(case: &str) -> Spec {
         parse_node(&mut t, "", &mut spec, &mut line);
     }
     assert!(spec.benches.len() + spec.groups.len() <= tables::N, "too many entries");
+    // optional: `F <flag>:<env>:<builder before parse>:<builder after parse>`, each `-`, `d` or `b`
+    if t.i < t.t.len() && t.t[t.i] == "F" {
+        t.next();
+        let f: Vec<&str> = t.next().split(':').collect();
+        for k in 0..4 {
+            spec.fmt[k] = match f[k] { "b" => Some(true), "d" => Some(false), _ => None };
+        }
+    }
     // optional: `T <list>` (`--threads` on the command line)
     if t.i < t.t.len() && t.t[t.i] == "T" {
         t.next();
@@ -390,7 +409,7 @@ fn cells(v: &[String]) -> String {
 
 /// The rows `TreePainter::finish_leaf` is expected to be given for this run,
 /// from the harness's own record: `time;counters(4 rows);max(0|2 rows);tallies`.
-fn expected_cells(b: &BenchSpec, n: u64, profile: bool) -> String {
+fn expected_cells(b: &BenchSpec, n: u64, profile: bool, binary: bool) -> String {
     let durations: Vec<u128> = (0..n).map(|i| v::tsc_duration_since(cost(b, i), 0, FREQ)).collect();
     let mut counts: [Vec<u64>; 4] = Default::default();
     // KnownCounterKind::ALL = [bytes, chars, cycles, items]
@@ -420,7 +439,7 @@ fn expected_cells(b: &BenchSpec, n: u64, profile: bool) -> String {
         let row: Vec<String> = match &st.counts[kind] {
             Some(c) => {
                 let cs = [c.fastest, c.slowest, c.median, c.mean];
-                let mut r: Vec<String> = (0..4).map(|j| v::display_throughput(kind as u8, cs[j], t[j], false)).collect();
+                let mut r: Vec<String> = (0..4).map(|j| v::display_throughput(kind as u8, cs[j], t[j], binary)).collect();
                 r.push(String::new());
                 r.push(String::new());
                 r
@@ -438,7 +457,7 @@ fn expected_cells(b: &BenchSpec, n: u64, profile: bool) -> String {
         r
     };
     let size_row = |s: &v::PlainStatsSet<f64>| -> Vec<String> {
-        let mut r: Vec<String> = f4(s).iter().enumerate().map(|(j, &x)| format!("{}{}", if j == 0 { "  " } else { "" }, v::format_bytes(x, 4, false))).collect();
+        let mut r: Vec<String> = f4(s).iter().enumerate().map(|(j, &x)| format!("{}{}", if j == 0 { "  " } else { "" }, v::format_bytes(x, 4, binary))).collect();
         r.push(String::new());
         r.push(String::new());
         r
@@ -476,7 +495,16 @@ fn child_main(case: &str) {
     if spec.profile {
         PROFILE.store(true, Ordering::SeqCst);
     }
-    divan::main();
+    let bf = |b: bool| if b { divan::counter::BytesFormat::Binary } else { divan::counter::BytesFormat::Decimal };
+    let mut d = divan::Divan::default();
+    if let Some(b) = spec.fmt[2] {
+        d = d.bytes_format(bf(b));
+    }
+    d = d.config_with_args();
+    if let Some(b) = spec.fmt[3] {
+        d = d.bytes_format(bf(b));
+    }
+    d.main();
     PROFILE.store(false, Ordering::SeqCst);
     std::io::stdout().flush().unwrap();
     let runs = RUNS.lock().unwrap();
@@ -485,7 +513,7 @@ fn child_main(case: &str) {
         let b = &spec.benches[r.bench];
         let n = r.calls.load(Ordering::SeqCst);
         let arg = r.arg.map(|a| a.to_string()).unwrap_or("-".into());
-        let body = if r.did_run && spec.action == "bench" { expected_cells(b, n, spec.profile) } else { String::from("-") };
+        let body = if r.did_run && spec.action == "bench" { expected_cells(b, n, spec.profile, spec.binary()) } else { String::from("-") };
         recs.push(format!("{}:{}:{}:{}:{}", b.id, arg, r.did_run as u8, n, body));
     }
     // on its own line, after the tree
@@ -511,6 +539,10 @@ fn run_case(case: &str) -> String {
         Ok(s) => s,
         Err(_) => return "crash bad-case".into(),
     };
+    let name = |b: bool| if b { "binary" } else { "decimal" };
+    if let Some(b) = spec.fmt[0] {
+        cmd.arg(format!("--bytes-format={}", name(b)));
+    }
     if let Some(t) = &spec.cli_threads {
         if action != "list" {
             cmd.arg(format!("--threads={}", t.iter().map(|x| x.to_string()).collect::<Vec<_>>().join(",")));
@@ -537,6 +569,9 @@ fn run_case(case: &str) -> String {
     for k in ["DIVAN_THREADS", "DIVAN_SAMPLE_COUNT", "DIVAN_SAMPLE_SIZE", "DIVAN_MIN_TIME", "DIVAN_MAX_TIME", "DIVAN_BYTES_FORMAT",
               "DIVAN_ITEMS_COUNT", "DIVAN_BYTES_COUNT", "DIVAN_CHARS_COUNT", "DIVAN_CYCLES_COUNT", "DIVAN_SKIP_EXT_TIME", "DIVAN_TIMER", "DIVAN_COLOR"] {
         cmd.env_remove(k);
+    }
+    if let Some(b) = spec.fmt[1] {
+        cmd.env("DIVAN_BYTES_FORMAT", name(b));
     }
     cmd.stdin(std::process::Stdio::null()).stdout(std::process::Stdio::piped()).stderr(std::process::Stdio::null());
     let mut child = match cmd.spawn() {
